@@ -70,6 +70,7 @@ _memo = {}
 # Units without a Kani pair: a short list of boundary inputs derived from the *clause* that failed (not from
 # the code) is executed against the real crates; only an input that reproduces is reported.
 PROBES = [
+    (re.compile(r"^serdecap::"), "cbor-bytes", ["9b8000000000000000", "9b0000010000000000", "9a7fffffff"]),
     (re.compile(r"^rpid::.*(label-boundary|web|android)"), "rpid-web",
      ["https://evilexample.com|example.com|0", "https://evillocalhost|localhost|1", "https://aexample.co.uk|example.co.uk|0",
       "https://example.com.evil.org|example.com|0", "https://xexample.com:8443/path|example.com|0"]),
